@@ -566,3 +566,83 @@ Proof.
     cbn [app find_sub startswith length]. rewrite H1. cbn [andb].
     change (existsb (N.eqb dc) text) with (mem_c dc text) in H2. rewrite (IH H2). reflexivity.
 Qed.
+
+(** * A paragraph break directly after a control word / a comment: the
+    post-space is cut at the first newline *)
+Lemma alpha_10 : is_alpha 10 = false. Proof. vm_compute. reflexivity. Qed.
+
+Lemma par_follows_split F : par_follows F = true ->
+  exists w' rest, F = (10%N :: w') ++ rest /\ forallb is_space (10%N :: w') = true /\ hd_not is_space rest /\
+                  Nat.leb 2 (count_c 10 (10%N :: w')) = true.
+Proof.
+  unfold par_follows. destruct F as [|c F']; [discriminate|].
+  destruct (N.eqb c 10) eqn:E; [|destruct c as [|q]; try discriminate; repeat (destruct q as [q|q|]; try discriminate)].
+  apply N.eqb_eq in E. subst c. intros H.
+  destruct (span is_space (10%N :: F')) as [w rest] eqn:SP. cbn [fst] in H.
+  destruct (span_split _ _ _ _ SP) as (FE & W & HS).
+  destruct w as [|c0 w']; [cbn in H; discriminate|].
+  cbn [app] in FE. injection FE as <- FE. exists w', rest. rewrite FE. repeat split; assumption.
+Qed.
+
+Section MacrosPar.
+  Variables (cx : context) (ps : pstate).
+  Hypothesis V : std_view cx ps.
+
+  Lemma dispatch_macro_word_par s p pre c nm post w' rest :
+    skipn p s = 92%N :: c :: nm ++ post ++ (10%N :: w') ++ rest ->
+    is_alpha c = true -> forallb is_alpha nm = true -> forallb is_space post = true -> mem_c 10 post = false ->
+    forallb is_space (10%N :: w') = true -> hd_not is_space rest -> Nat.leb 2 (count_c 10 (10%N :: w')) = true ->
+    str_eqb (c :: nm) kw_begin = false -> str_eqb (c :: nm) kw_end = false ->
+    dispatch ps s (92%N :: c :: nm ++ post ++ (10%N :: w') ++ rest) p pre 92%N
+    = TokOk (mk TkMacro (c :: nm) p (p + 2 + length nm + length post) pre post).
+  Proof.
+    intros H Hc Hnm Wp NP Ww HS CN NB NE. set (w := 10%N :: w') in *.
+    assert (HA : post = [] -> hd_not is_alpha (w ++ rest)) by (intros _; exact alpha_10).
+    unfold dispatch.
+    rewrite (stage_math_escape cx ps V) by (apply alpha_neq; [exact Hc | reflexivity]).
+    rewrite (stage_escape_word cx ps V s p pre c nm post (w ++ rest) H Hc Hnm Wp HA NB NE).
+    cbn [orelse].
+    unfold read_macro. rewrite (skipn_S_of _ _ _ _ H), (sv_alpha _ _ V).
+    change (mem_c c default_alpha) with (is_alpha c). rewrite Hc.
+    assert (T : hd_not is_alpha (post ++ w ++ rest)).
+    { destruct post as [|c0 post]; [exact alpha_10|]. cbn [app hd_not].
+      cbn [forallb] in Wp. apply andb_true_iff in Wp. destruct Wp as [W1 _]. apply space_not_alpha. exact W1. }
+    change (fun x : N => mem_c x default_alpha) with is_alpha.
+    rewrite (span_app is_alpha nm (post ++ w ++ rest) Hnm T). cbn [fst].
+    assert (SK : skipn (p + 2 + length nm) s = (post ++ w) ++ rest).
+    { change (92%N :: c :: nm ++ post ++ w ++ rest) with ([92%N; c] ++ nm ++ post ++ w ++ rest) in H.
+      apply skipn_shift in H. apply skipn_shift in H. rewrite <- app_assoc. exact H. }
+    assert (WW : forallb is_space (post ++ w) = true) by (rewrite forallb_app, Wp, Ww; reflexivity).
+    unfold post_space_at. rewrite (peek_space_at s _ (post ++ w) rest SK WW HS).
+    assert (C2 : Nat.leb 2 (count_c 10 (post ++ w)) = true).
+    { apply Nat.leb_le. rewrite count_c_app. apply Nat.leb_le in CN. lia. }
+    rewrite C2. unfold w. rewrite (find_nl_app post w' NP), firstn_len_app. reflexivity.
+  Qed.
+
+  Lemma dispatch_comment_par s p pre text w' rest :
+    skipn p s = 37%N :: text ++ (10%N :: w') ++ rest ->
+    mem_c 10 text = false -> forallb is_space (10%N :: w') = true -> hd_not is_space rest ->
+    Nat.leb 2 (count_c 10 (10%N :: w')) = true ->
+    dispatch ps s (37%N :: text ++ (10%N :: w') ++ rest) p pre 37%N
+    = TokOk (mk TkComment text p (p + 1 + length text) pre []).
+  Proof.
+    intros SK NT Ww HS CN.
+    unfold dispatch. rewrite (stage_math_none cx ps V), (stage_escape_none cx ps V) by reflexivity.
+    cbn [orelse]. unfold stage_comment. rewrite (sv_comment _ _ V), (sv_comments _ _ V).
+    assert (S1 : startswith (37%N :: text ++ (10%N :: w') ++ rest) [37%N] = true).
+    { cbn [startswith]. rewrite N.eqb_refl. destruct (text ++ (10%N :: w') ++ rest); reflexivity. }
+    rewrite S1. cbn [N.eqb Pos.eqb andb orelse]. f_equal.
+    unfold read_comment. rewrite (sv_comment _ _ V). cbn [length].
+    pose proof (skipn_cons_lt _ _ _ _ SK) as [PL SK1].
+    replace (p + 1) with (S p) by lia.
+    assert (F : find_from s [10%N] (S p) = Some (S p + length text)).
+    { unfold find_from. assert (L : Nat.ltb (length s) (S p) = false) by (apply Nat.ltb_ge; lia).
+      rewrite L, SK1. cbn [app]. rewrite (find_sub_nl text _ NT). reflexivity. }
+    rewrite F.
+    assert (SK2 : skipn (S p + length text) s = (10%N :: w') ++ rest) by (apply skipn_shift in SK1; exact SK1).
+    unfold post_space_at. rewrite (peek_space_at s _ (10%N :: w') rest SK2 Ww HS), CN.
+    cbn [find_nl N.eqb Pos.eqb firstn]. change (N.eqb 10 10) with true. cbv iota. cbn [firstn].
+    unfold slice. rewrite SK1. replace (S p + length text - S p) with (length text) by lia.
+    rewrite firstn_len_app. unfold mk. f_equal. lia.
+  Qed.
+End MacrosPar.
